@@ -175,8 +175,17 @@ struct WriteOp {
     Codec<T>::parseInto(c, x);
     if (c.p != val.size()) throw BadToken();
     for (auto *w : ws) *w << x;
+    // "WriteSizeCalculator predicts that byte count" also when it is used under its own static type with the value
+    // as the first operand (overload resolution then differs from the call through WriteStream&)
+    WriteSizeCalculator direct;
+    direct << x;
+    WriteSizeCalculator viaBase;
+    static_cast<WriteStream &>(viaBase) << x;
+    if (direct.writtenSize != viaBase.writtenSize) directSizeMismatch = true;
   }
+  static bool directSizeMismatch;
 };
+bool WriteOp::directSizeMismatch = false;
 
 struct ArrWriteOp {
   std::vector<WriteStream *> ws;
@@ -403,8 +412,9 @@ static std::string step(const std::vector<std::string> &w)
   const std::string &op = w[0];
   if (op == "w" && w.size() == 3) {
     size_t old = bw->buffer->size();
+    WriteOp::directSizeMismatch = false;
     if (!typedWrite(w[1], w[2], {bw.get(), sc.get()})) return "bad-type";
-    return afterBw(old);
+    return afterBw(old) + (WriteOp::directSizeMismatch ? " sizecalc-by-static-type-differs" : "");
   }
   if (op == "wc") {
     std::string s;
